@@ -33,6 +33,8 @@ type drvState struct {
 	parserT    *types.Named
 	tlen       map[string]int64
 	lrGraph    *lrGraph
+	windowErr  []string
+	windowChecked int
 }
 
 func newDrvEngine(w *World, name string, props []string) (*scanEngine, error) {
@@ -428,6 +430,67 @@ func (dv *driver) actionFrame(se *scanEngine) {
 		}
 	}
 	dv.actionKeys = keys
+	dv.windowCheck()
+}
+
+// windowCheck: every action begins with `yyDollar = yyS[yypt-N : yypt+1]`; N must be the length yyR2[k] of its rule
+// (so that the safety of the slice expression is exactly the driver's obligation `action-window` at the dispatch).
+func (dv *driver) windowCheck() {
+	r2 := dv.tables["yyR2"]
+	checked := 0
+	var ks []int
+	for k := range dv.ruleEntry {
+		ks = append(ks, k)
+	}
+	sort.Ints(ks)
+	for _, k := range ks {
+		b := dv.ruleEntry[k]
+		if k < 1 || k >= len(r2) {
+			dv.windowErr = append(dv.windowErr, fmt.Sprintf("case %d has no entry in yyR2", k))
+			continue
+		}
+		found := false
+		for _, in := range b.Instrs {
+			sl, ok := in.(*ssa.Slice)
+			if !ok {
+				continue
+			}
+			if st, ok := sl.X.Type().Underlying().(*types.Slice); !ok || !strings.HasSuffix(typeName(st.Elem()), "yySymType") {
+				continue
+			}
+			found = true
+			lo, okL := sl.Low.(*ssa.BinOp)
+			hi, okH := sl.High.(*ssa.BinOp)
+			if !okL || !okH || lo.Op.String() != "-" || hi.Op.String() != "+" {
+				dv.windowErr = append(dv.windowErr, fmt.Sprintf("case %d: the window is not yyS[yypt-N : yypt+1]", k))
+				break
+			}
+			n, okN := lo.Y.(*ssa.Const)
+			one, okO := hi.Y.(*ssa.Const)
+			isPt := func(v ssa.Value) bool {
+				ld, ok := v.(*ssa.UnOp)
+				if !ok {
+					return false
+				}
+				a, ok := ld.X.(*ssa.Alloc)
+				return ok && a.Comment == "yypt"
+			}
+			if !okN || !okO || !isPt(lo.X) || !isPt(hi.X) || one.Int64() != 1 {
+				dv.windowErr = append(dv.windowErr, fmt.Sprintf("case %d: the window is not yyS[yypt-N : yypt+1]", k))
+				break
+			}
+			if n.Int64() != r2[k] {
+				dv.windowErr = append(dv.windowErr, fmt.Sprintf("case %d slices %d stack entries but yyR2[%d] = %d", k, n.Int64(), k, r2[k]))
+			}
+			checked++
+			break
+		}
+		if !found && r2[k] != 0 {
+			// an action of a rule with a non-empty right-hand side that never builds its window reads no $i: fine
+			continue
+		}
+	}
+	dv.windowChecked = checked
 }
 
 // driverTables returns the table facts of a generated parser package (nil for other packages); cached.
@@ -567,9 +630,19 @@ func (dv *driver) abstractActions(wk *scanWalker, st *State) {
 	if len(dv.frameErr) > 0 {
 		oos("frame of the action switch: %s", strings.Join(dv.frameErr, "; "))
 	}
-	// the window of the right-hand side: yyS[yypt-yyR2[yynt] : yypt+1] is what every action slices
-	if a, ok := se.locals["yypt"]; ok {
-		_ = a
+	// the window of the right-hand side: every action slices yyS[yypt-yyR2[yynt] : yypt+1] (windowCheck); its bounds
+	// are the driver's obligation
+	if apt, ok := se.locals["yypt"]; ok {
+		if ant, ok2 := se.locals["yynt"]; ok2 {
+			if ayS, ok3 := se.locals["yyS"]; ok3 {
+				pt := x.loadQuiet(st, se.localPtr[apt]).(*Term)
+				nt := x.loadQuiet(st, se.localPtr[ant]).(*Term)
+				sv := x.loadQuiet(st, se.localPtr[ayS]).(SliceV)
+				x.Sc.DeclareFun("uf_yyR2", []string{SInt}, SInt)
+				goal := tAnd(tLe(mkApp("uf_yyR2", SInt, nt), pt), tLe(tAdd(pt, mkInt(1)), sv.Cap))
+				x.oblige(st, "slice", "action-window: yyS[yypt-yyR2[yynt] : yypt+1]", dv.dispatch.Instrs[0].Pos(), goal, nil)
+			}
+		}
 	}
 	for _, k := range sortedKeys(dv.actionKeys) {
 		srt := x.sortOfKey(k)
